@@ -134,6 +134,7 @@ def real_run(hname, scen, model, repo):
 
     H = _load_harness(hname)
     W = world.RealWorld(model, repo)
+    W.rtol = getattr(H, "RTOL", W.rtol)
     fn = getattr(H, scen.get("fn", "run"))
     res = dict(status="ok", failures=[], checked=0)
     W.fresh_scratch()
